@@ -305,21 +305,24 @@ def evaluate(chk, case, res, stats):
 
 
 def real_clock_smoke(chk, exe, stats, n):
-    """1 s real timeout: CPU time of the scanning process must stay below timeout + 2 s."""
+    """1 s and 2 s real timeouts: CPU time of the scanning process (start-up and compilation included) must stay
+    below timeout + 2 s; CPU time can only be smaller than the monotonic time the deadline is measured on"""
     loops = ("for all i in (1..100000) : (for all j in (1..100000) : (for all k in (1..100000) : (for all l in (1..100000) : "
              "(i + j + k + l > 0))))")
     shapes = [("rule slow { condition: %s }\n" % loops, "buf 0 " + hx(b"abc")),
               ('import "hash"\nrule slowm { condition: for all i in (1..100000000) : (hash.md5(0, filesize) != "x" and i > 0) }\n', "buf 0 " + hx(b"abc" * 100)),
               ('rule big { strings: $a = /a+b/ condition: $a }\n', "bufrep 0 %s 4000000 %s" % (hx(b"ac"), hx(b"ab")))][:n]
-    for i, (rule, bufline) in enumerate(shapes):
-        script = "case smoke%d\ncnew 0\ncadd 0 - %s\ncrules 0 0\n%s\nscan r0 mem 0 0 1 - - - 1 n\n" % (i, hx(rule), bufline)
+    # (shape, timeout in seconds): the first shape also with 2 s, so that a clock that runs at the wrong rate shows
+    runs = [(i, sh, 1) for i, sh in enumerate(shapes)] + [(0, shapes[0], 2)]
+    for i, (rule, bufline), T in runs:
+        script = "case smoke%d\ncnew 0\ncadd 0 - %s\ncrules 0 0\n%s\nscan r0 mem 0 0 %d - - - 1 n\n" % (i, hx(rule), bufline, T)
         r0 = resource.getrusage(resource.RUSAGE_CHILDREN)
         t0 = time.time()
         out, err, status = harness.run_script(exe, script, harness.workdir("c15smoke"), cpu=60)
         r1 = resource.getrusage(resource.RUSAGE_CHILDREN)
         cpu = (r1.ru_utime + r1.ru_stime) - (r0.ru_utime + r0.ru_stime)
         wall = time.time() - t0
-        stats["smoke"].append({"shape": i, "cpu_s": round(cpu, 2), "wall_s": round(wall, 2)})
+        stats["smoke"].append({"shape": i, "timeout_s": T, "cpu_s": round(cpu, 2), "wall_s": round(wall, 2)})
         rc = None
         for line in out.split("\n"):
             if line.startswith('{"op":"scan"'):
@@ -327,7 +330,7 @@ def real_clock_smoke(chk, exe, stats, n):
                 rc = json.loads(line)["rc"]
         if status != 0 and status != 77:
             chk.violation("real-timeout-crash-or-hang", dict(script=script[:400], status=str(status), stderr=err[-1500:]))
-        elif cpu > 1 + 2.5:
+        elif cpu > T + 2.0:
             chk.violation("real-timeout-overrun", dict(script=script[:400], cpu_seconds=cpu, rc=rc))
         elif rc not in (0, E_TIMEOUT):
             chk.violation("real-timeout-unexpected-rc", dict(script=script[:400], rc=rc))
@@ -361,7 +364,7 @@ def main(args):
              "(4 nested loops over 10^12 iterations, module calls in a 10^6 loop, 4 MB of data, quadratic loop over "
              "match offsets) x 4 deadlines under a virtual clock that advances 1 unit per scanned byte / VM "
              "instruction: the scan must stop having done at most deadline+4096+100+64 units of counted work; plus "
-             "real-clock smoke runs (1 s timeout, CPU time < 3.5 s). non-trivial = case whose outcome matched the "
+             "real-clock smoke runs (1 s and 2 s timeouts, CPU time < timeout + 2 s). non-trivial = case whose outcome matched the "
              "table and after which the library was still usable",
         samples=stats["samples"],
         extra={"limits_exercised": sorted(stats["limits"]), "virtual_time_scans": stats["timeout_scans"],
